@@ -61,7 +61,7 @@ ExecList(ss, i, st, c, fuel) ==
 \* first truthy condition: [st, out(normal/error), j]
 PickBranch(s, j, st, c, fuel) ==
   IF j > Len(s.cs) THEN [st |-> st, ok |-> TRUE, j |-> 0, cls |-> ""]
-  ELSE LET r == Use1(st, Eval(s.cs[j], st)) IN
+  ELSE LET r == NoPend(Use1(st, Eval(s.cs[j], st))) IN
        IF ~r.ok THEN [st |-> r.st, ok |-> FALSE, j |-> 0, cls |-> r.cls]
        ELSE IF Truthy(r.st.heap, r.v) THEN [st |-> r.st, ok |-> TRUE, j |-> j, cls |-> ""]
        ELSE PickBranch(s, j + 1, r.st, c, fuel)
@@ -77,13 +77,13 @@ ExecStmt(s, st, c, fuel) ==
               IN IF r.out \in {"error", "diverge"} THEN r ELSE [r EXCEPT !.st = PopS(r.st, 2)]
     [] s.k = "for" ->
          LET st1 == PushS(st)
-             i == IF NoneNode(s.i) THEN R(st1, VVoid) ELSE Eval(s.i, st1)
+             i == IF NoneNode(s.i) THEN R(st1, VVoid) ELSE NoPend(Eval(s.i, st1))
          IN IF ~i.ok THEN Failed(i.st, i.cls, c.name, s.sid, fuel)
             ELSE LET r == ForLoop(s, i.st, c, fuel)
                  IN IF r.out \in {"error", "diverge"} THEN r ELSE [r EXCEPT !.st = PopS(r.st, 1)]
     [] s.k = "forin" ->
          LET st1 == PushS(st)
-             it == Use1(st1, Eval(s.it, st1))
+             it == NoPend(Use1(st1, Eval(s.it, st1)))
          IN IF ~it.ok THEN Failed(it.st, it.cls, c.name, s.sid, fuel)
             ELSE LET kd == KindOf(it.st.heap, it.v) IN
                  IF ~(kd \in {"str", "list", "map"}) THEN Failed(it.st, "not-iterable", c.name, s.sid, fuel)
@@ -95,7 +95,7 @@ ExecStmt(s, st, c, fuel) ==
                           r == ForInLoop(s, items, 1, PushS(it.st), c, fuel, kd = "str")
                       IN IF r.out \in {"error", "diverge"} THEN r ELSE [r EXCEPT !.st = PopS(r.st, 2)]
     [] OTHER ->
-         LET r == Eval(s, st) IN
+         LET r == IF DirectUse(s) THEN Eval(s, st) ELSE NoPend(Eval(s, st)) IN
          IF ~r.ok THEN Failed(r.st, r.cls, c.name, s.sid, fuel)
          ELSE IF r.st.pend # "" /\ r.st.pend \in DOMAIN c.prog
            THEN \* use(name): the callee runs on the same point and heap with fresh variables
@@ -111,7 +111,7 @@ ExecStmt(s, st, c, fuel) ==
 \* state st has the loop's scope on top
 ForLoop(s, st, c, fuel) ==
   IF fuel = 0 THEN BRes(st, "diverge", "", <<>>, 0)
-  ELSE LET cond == IF NoneNode(s.c) THEN R(st, VBool(TRUE)) ELSE Use1(st, Eval(s.c, st)) IN
+  ELSE LET cond == IF NoneNode(s.c) THEN R(st, VBool(TRUE)) ELSE NoPend(Use1(st, Eval(s.c, st))) IN
   IF ~cond.ok THEN Failed(cond.st, cond.cls, c.name, s.sid, fuel)
   ELSE IF ~Truthy(cond.st.heap, cond.v) THEN Norm(cond.st, fuel)
   ELSE LET b == ExecList(s.b, 1, PushS(cond.st), c, fuel - 1) IN
@@ -119,7 +119,7 @@ ForLoop(s, st, c, fuel) ==
        ELSE LET st2 == PopS(b.st, 1) IN
             IF b.out = "break" THEN Norm(st2, b.fuel)
             ELSE IF b.out = "exit" THEN BRes(st2, "exit", "", <<>>, b.fuel)
-            ELSE LET p == IF NoneNode(s.p) THEN R(st2, VVoid) ELSE Eval(s.p, st2) IN
+            ELSE LET p == IF NoneNode(s.p) THEN R(st2, VVoid) ELSE NoPend(Eval(s.p, st2)) IN
                  IF ~p.ok THEN Failed(p.st, p.cls, c.name, s.sid, b.fuel)
                  ELSE ForLoop(s, p.st, c, b.fuel)
 
